@@ -322,8 +322,14 @@ def frechet_ref(A, E, fname, m=None):
 @st.composite
 def jvp_cases(draw):
     fname = draw(st.sampled_from(['sqrt', 'exp', 'log', 'pow']))
+    intpow = False
     if fname == 'pow':
         classes = ('distinct_wide', 'double_low', 'double_high', 'triple')
+        # pow_symm is documented as the m-fold matrix product of ANY symmetric matrix: with an integer power m >= 2 the
+        # argument may be indefinite or singular, so the derivative rule must also hold there (well separated eigenvalues)
+        intpow = draw(st.booleans())
+        if intpow:
+            classes = ('rank_deficient', 'indefinite', 'semidefinite', 'distinct_wide')
     else:
         classes = ('distinct', 'near_double', 'double_low', 'double_high', 'triple', 'near_triple')
     ts = []
@@ -337,6 +343,13 @@ def jvp_cases(draw):
             if cls == 'distinct_wide':
                 lam = [a, a * (1.5 + draw(gen.floats(0.0, 0.5))), a * (2.6 + draw(gen.floats(0.0, 1.0)))]
                 rot = draw(gen.rotation3())
+            elif cls in ('rank_deficient', 'indefinite', 'semidefinite'):
+                b = a * (1.5 + draw(gen.floats(0.0, 0.5)))
+                c = a * (2.6 + draw(gen.floats(0.0, 1.0)))
+                lam = {'rank_deficient': [-a, 0.0, b], 'indefinite': [-b, a, c], 'semidefinite': [0.0, a, c]}[cls]
+                if draw(st.booleans()):
+                    lam = [-v for v in lam]
+                rot = draw(gen.rotation3(('axis', 'inplane', 'generic')))   # axis-aligned keeps the zero eigenvalue exact
             else:
                 c = a * (1.5 + draw(gen.floats(0.0, 1.5)))
                 lam = {'double_low': [a, a, c], 'double_high': [a, c, c], 'triple': [a, a, a]}[cls]
@@ -349,6 +362,8 @@ def jvp_cases(draw):
             ts.append({'cls': t['cls'], 'orient': t['orient'], 'A': t['A']})
     Es = [draw(gen.sym33_direction()) for _ in range(3)]
     m = draw(st.sampled_from([0.25, 0.5, 2.0, 3.0, -1.0, 1.5]))
+    if intpow:
+        m = draw(st.sampled_from([2.0, 3.0]))
     return {'fname': fname, 'tensors': ts, 'dirs': Es, 'm': m}
 
 
@@ -358,9 +373,14 @@ def _jvp_oracle(out, ref, mode, g, A, E, cls, fname, m):
         return Failure('jvp-finite', 'JVP of %s_symm non-finite (%s, %s, relgap %.1e)' % (fname, mode, cls, g), **data)
     nref = onp.abs(ref).max()
     err = onp.abs(out - ref).max()
-    if err > 1e-8 * nref:
+    floor = 0.0
+    if cls in ('rank_deficient', 'indefinite', 'semidefinite'):
+        # with a zero eigenvalue the derivative can vanish identically (direction along the null vector): rounding floor
+        # relative to the natural size m |A|^(m-1) |E| of the derivative
+        floor = 1e-13 * abs(m) * onp.abs(A).max() ** (m - 1) * onp.abs(E).max()
+    if err > 1e-8 * nref + floor:
         return Failure('jvp', 'JVP of %s_symm%s differs from the Frechet derivative by %.2e relative (%s, %s, relgap %.1e)'
-                       % (fname, '(m=%g)' % m if fname == 'pow' else '', err / nref, mode, cls, g), **data)
+                       % (fname, '(m=%g)' % m if fname == 'pow' else '', err / max(nref, 1e-300), mode, cls, g), **data)
     return None
 
 
@@ -557,7 +577,8 @@ SUBCHECKS = [
         required=gen.SPECTRUM_CLASSES + ('orient-generic', 'orient-inplane', 'orient-axis')),
     Sub('funcs', func_cases, check_funcs, quick=300, thorough=5000, shards_quick=4, shards_thorough=4),
     Sub('jvp', jvp_cases, check_jvp, quick=600, thorough=8000, shards_quick=4, shards_thorough=4,
-        required=('sqrt', 'exp', 'log', 'pow', 'log:near_double', 'sqrt:double_high', 'exp:triple')),
+        required=('sqrt', 'exp', 'log', 'pow', 'log:near_double', 'sqrt:double_high', 'exp:triple', 'pow:rank_deficient',
+                  'pow:indefinite', 'pow:semidefinite')),
     Sub('helpers', helper_cases, check_helpers, quick=1000, thorough=15000, shards_quick=2, shards_thorough=1),
     Sub('dense', dense_cases, check_dense, quick=300, thorough=4000, shards_quick=1, shards_thorough=1),
 ]
